@@ -9,8 +9,12 @@
 (* then the next request of the session starts at Defaults again, and      *)
 (* after the last one Judge evaluates every request.  One action per       *)
 (* statement group of `_prepare_headers` / `request` and per               *)
-(* `authenticate_request` call of the composition (CompositeAuth is        *)
-(* sequential application, so nesting flattens to the plug-in order).      *)
+(* `authenticate_request` call of the composition.  The auth               *)
+(* configuration is a TREE (`sc.tree`): Enter / Exit are the call and the  *)
+(* return of a CompositeAuth.authenticate_request (which loops over its    *)
+(* members in the order given), Plugin is a leaf's call.  That this walk   *)
+(* equals the left-to-right fold over the leaves (`ModelSession`, which    *)
+(* never looks at the nesting) is the invariant MachineIsModel.            *)
 (*                                                                         *)
 (* What lives ACROSS requests is explicit state: `tdefaults` (the          *)
 (* transport's default-headers dict) and `stored` (the OAuth2 plug-in's    *)
@@ -47,7 +51,8 @@ EXTENDS TransportCore, TLC, Json
 
 CONSTANTS MaxPlugins,    \* 0..3
           MaxReqs,       \* 1..3 : number of requests of a "session" scenario ("single" scenarios have one)
-          Family,        \* "single" | "session"
+          MaxTreeLen,    \* "nesting": longest auth tree in tokens
+          Family,        \* "single" | "session" | "nesting"
           First,         \* "any" (all sequences of <= MaxPlugins), "short" (length <= 1), or a plug-in kind: the
                          \* sequences of length exactly MaxPlugins that start with it (partition for big runs)
           Variant,       \* "as_is" | "fixed" | "aliased_defaults"
@@ -58,10 +63,11 @@ VARIABLES sc,            \* the scenario (constant along a behaviour)
           pc, k,         \* control state, number of the request being served
           tdefaults,     \* the transport's default-headers dict            (lives across requests)
           stored,        \* the OAuth2-with-refresh plug-in's access_token  (lives across requests)
-          prepared, args, pending, calls,   \* locals of the request being served
+          prepared, args, calls,            \* locals of the request being served
+          pending, lidx, depth,             \* auth walk: tokens of the tree still to visit, next leaf, call depth
           wires,         \* the requests sent so far
           verdict
-vars == <<sc, pc, k, tdefaults, stored, prepared, args, pending, calls, wires, verdict>>
+vars == <<sc, pc, k, tdefaults, stored, prepared, args, calls, pending, lidx, depth, wires, verdict>>
 
 cfg == Concrete(sc)
 
@@ -74,7 +80,7 @@ InitSingle ==
   \E w \in Wraps(p), s \in Shorts(p), d \in {"none", "tag"}, ca \in CallerAuth :
   \E r \in ReqSeqs(d, 1), kn \in KeyNames(p, d), hn \in HdrNames(p), pa \in BOOLEAN, co \in BOOLEAN :
   \E bo \in (IF BodyTied THEN {~co} ELSE BOOLEAN) :
-     sc = [plugs |-> p, wrap |-> w, short |-> s, dflt |-> d, reqs |-> r, rets |-> AllNew(1), ca |-> ca, kn |-> kn,
+     sc = [plugs |-> p, tree |-> w, short |-> s, dflt |-> d, reqs |-> r, rets |-> AllNew(1), ca |-> ca, kn |-> kn,
            hn |-> hn, params |-> pa, cookies |-> co, body |-> bo]
 
 \* sessions: the caller-side Authorization header only in the per-request layer (that is what can leak), caller
@@ -83,17 +89,26 @@ InitSession ==
   \E p \in {q \in PlugSeqs(MaxPlugins) : FirstOK(q)} :
   \E w \in Wraps(p), s \in Shorts(p), d \in {"none", "tag"}, ca \in {"none", "req-equal", "req-casevar"} :
   \E r \in ReqSeqs(d, MaxReqs), t \in RetSeqs(p, MaxReqs), kn \in KeyNames(p, d), hn \in HdrNames(p) :
-     sc = [plugs |-> p, wrap |-> w, short |-> s, dflt |-> d, reqs |-> r, rets |-> t, ca |-> ca, kn |-> kn,
+     sc = [plugs |-> p, tree |-> w, short |-> s, dflt |-> d, reqs |-> r, rets |-> t, ca |-> ca, kn |-> kn,
            hn |-> hn, params |-> TRUE, cookies |-> TRUE, body |-> TRUE]
 
+\* overlapping plug-in groups: everything in a group writes the same thing, so the ORDER of application is observable
+OverlapGroups == {{"B", "O", "OR", "H"}, {"KH", "KH2"}, {"KQ", "KQ2"}, {"KC", "KC2"}}
+OverlapSeqs == UNION {{q \in UNION {[1..n -> g] : n \in 2..MaxPlugins} : Injective(q)} : g \in OverlapGroups}
+InitNesting ==
+  \E w \in TreeUniverse(MaxTreeLen, 3) :
+  \E p \in {q \in OverlapSeqs : Len(q) = Stars(w)} :
+     sc = [plugs |-> p, tree |-> w, short |-> FALSE, dflt |-> "tag", reqs |-> <<"disjoint">>, rets |-> AllNew(1),
+           ca |-> "none", kn |-> "disjoint", hn |-> "equal", params |-> TRUE, cookies |-> TRUE, body |-> TRUE]
+
 Init ==
-  /\ IF Family = "single" THEN InitSingle ELSE InitSession
+  /\ CASE Family = "single" -> InitSingle [] Family = "session" -> InitSession [] OTHER -> InitNesting
   /\ pc = "defaults" /\ k = 1
   /\ tdefaults = cfg.defaults
   /\ stored = InitialToken(cfg)
   /\ prepared = <<>>
   /\ args = [headers |-> <<>>, params |-> <<>>, cookies |-> <<>>]
-  /\ pending = <<>>
+  /\ pending = <<>> /\ lidx = 1 /\ depth = 0
   /\ calls = <<>>
   /\ wires = <<>>
   /\ verdict = {}
@@ -103,65 +118,82 @@ Defaults ==
   /\ prepared' = StepDefaults(Variant, tdefaults)
   /\ calls' = <<>>
   /\ pc' = "perrequest"
-  /\ UNCHANGED <<sc, k, tdefaults, stored, args, pending, wires, verdict>>
+  /\ UNCHANGED <<sc, k, tdefaults, stored, args, pending, lidx, depth, wires, verdict>>
 
 PerRequest ==
   /\ pc = "perrequest"
   /\ prepared' = StepPerRequest(Variant, cfg.requests[k], prepared)
   /\ tdefaults' = DefaultsAfter(Variant, tdefaults, prepared')
   /\ args' = ScratchOf(Variant, cfg, prepared')
-  /\ pending' = cfg.plugins
-  /\ pc' = IF cfg.plugins # <<>> THEN "auth" ELSE IF cfg.bearer # "" THEN "shortcut" ELSE "send"
+  /\ pending' = cfg.tree /\ lidx' = 1 /\ depth' = 0
+  /\ pc' = IF cfg.tree # <<>> THEN "auth" ELSE IF cfg.bearer # "" THEN "shortcut" ELSE "send"
   /\ UNCHANGED <<sc, k, stored, calls, wires, verdict>>
 
+AfterAuth(rest) == IF rest = <<>> THEN "send" ELSE "auth"
+Leaf == cfg.plugins[lidx]
+
+\* CompositeAuth.authenticate_request is entered: it will visit its members in the order given
+Enter ==
+  /\ pc = "auth" /\ pending # <<>> /\ Head(pending) = "("
+  /\ pending' = Tail(pending) /\ depth' = depth + 1
+  /\ UNCHANGED <<sc, pc, k, tdefaults, stored, prepared, args, calls, lidx, wires, verdict>>
+
+\* ... and returns to its caller
+Exit ==
+  /\ pc = "auth" /\ pending # <<>> /\ Head(pending) = ")"
+  /\ pending' = Tail(pending) /\ depth' = depth - 1
+  /\ pc' = AfterAuth(Tail(pending))
+  /\ UNCHANGED <<sc, k, tdefaults, stored, prepared, args, calls, lidx, wires, verdict>>
+
 Refresh ==
-  /\ pc = "auth" /\ pending # <<>>
-  /\ IsRefresh(Head(pending)) /\ calls = <<>>
+  /\ pc = "auth" /\ pending # <<>> /\ Head(pending) = "*"
+  /\ IsRefresh(Leaf) /\ calls = <<>>
   /\ calls' = Append(calls, stored)                        \* the callback is shown the stored token
-  /\ stored' = RefreshStep(Head(pending), k, stored)       \* and its k-th answer is (or is not) taken over
-  /\ UNCHANGED <<sc, pc, k, tdefaults, prepared, args, pending, wires, verdict>>
+  /\ stored' = RefreshStep(Leaf, k, stored)                \* and its k-th answer is (or is not) taken over
+  /\ UNCHANGED <<sc, pc, k, tdefaults, prepared, args, pending, lidx, depth, wires, verdict>>
 
 Plugin ==
-  /\ pc = "auth" /\ pending # <<>>
-  /\ LET p == Head(pending) IN
-       /\ IsRefresh(p) => calls # <<>>
-       /\ args' = ApplyPlugin(Variant, p, IF IsRefresh(p) THEN stored ELSE p.val, args)
-  /\ pending' = Tail(pending)
-  /\ pc' = IF Tail(pending) = <<>> THEN "send" ELSE "auth"
-  /\ UNCHANGED <<sc, k, tdefaults, stored, prepared, calls, wires, verdict>>
+  /\ pc = "auth" /\ pending # <<>> /\ Head(pending) = "*"
+  /\ IsRefresh(Leaf) => calls # <<>>
+  /\ args' = ApplyPlugin(Variant, Leaf, IF IsRefresh(Leaf) THEN stored ELSE Leaf.val, args)
+  /\ pending' = Tail(pending) /\ lidx' = lidx + 1
+  /\ pc' = AfterAuth(Tail(pending))
+  /\ UNCHANGED <<sc, k, tdefaults, stored, prepared, calls, depth, wires, verdict>>
 
 Shortcut ==
   /\ pc = "shortcut"
   /\ prepared' = StepShortcut(Variant, cfg, prepared)
   /\ tdefaults' = DefaultsAfter(Variant, tdefaults, prepared')
   /\ pc' = "send"
-  /\ UNCHANGED <<sc, k, stored, args, pending, calls, wires, verdict>>
+  /\ UNCHANGED <<sc, k, stored, args, pending, lidx, depth, calls, wires, verdict>>
 
 Send ==
   /\ pc = "send"
-  /\ wires' = Append(wires, WireOf(Variant, cfg, IF cfg.plugins # <<>> THEN args.headers ELSE prepared, args, calls,
+  /\ wires' = Append(wires, WireOf(Variant, cfg, IF cfg.tree # <<>> THEN args.headers ELSE prepared, args, calls,
                                    tdefaults))
   /\ IF k < Len(cfg.requests) THEN k' = k + 1 /\ pc' = "defaults" ELSE k' = k /\ pc' = "sent"
-  /\ UNCHANGED <<sc, tdefaults, stored, prepared, args, pending, calls, verdict>>
+  /\ UNCHANGED <<sc, tdefaults, stored, prepared, args, pending, lidx, depth, calls, verdict>>
 
 Judge ==
   /\ pc = "sent"
   /\ verdict' = SessionFailures(cfg, wires)
   /\ pc' = "done"
   /\ Emit => PrintT("SCEN " \o ToJson([sc |-> sc, cfg |-> cfg, design |-> SetToSeq(verdict')]))
-  /\ UNCHANGED <<sc, k, tdefaults, stored, prepared, args, pending, calls, wires>>
+  /\ UNCHANGED <<sc, k, tdefaults, stored, prepared, args, pending, lidx, depth, calls, wires>>
 
-Next == Defaults \/ PerRequest \/ Refresh \/ Plugin \/ Shortcut \/ Send \/ Judge
+Next == Defaults \/ PerRequest \/ Enter \/ Exit \/ Refresh \/ Plugin \/ Shortcut \/ Send \/ Judge
 Spec == Init /\ [][Next]_vars
 
 \* ---------------------------------------------------------------------------------------------
 \* properties
 
 TypeOK ==
-  /\ ScenarioOK(sc, MaxPlugins, MaxReqs)
+  /\ (pc = "defaults" /\ k = 1) => ScenarioOK(sc, MaxPlugins, MaxReqs)     \* sc never changes: judged where it starts
   /\ pc \in {"defaults", "perrequest", "auth", "shortcut", "send", "sent", "done"}
   /\ k \in 1..Len(sc.reqs) /\ Len(wires) <= Len(sc.reqs)
-  /\ Len(pending) <= Len(sc.plugs)
+  /\ Len(pending) <= Len(sc.tree) /\ lidx \in 1..(Len(sc.plugs) + 1)
+  /\ depth >= 0 /\ (pc # "auth" => depth = 0)
+  /\ (pc = "perrequest") => Len(LeafOrder(sc.tree)) = Len(sc.plugs)
 
 Done == pc = "done"      \* nothing changes the wires between the last Send and Judge: judging the final state suffices
 
